@@ -42,6 +42,10 @@ for _c in ("AES", "DES3", "DES", "Blowfish", "CAST", "ARC2"):
 HASHES["CMAC-AES256-mac4"] = ("CMAC", {"key": 32, "ciphermod": "AES", "mac_len": 4}, 16, "d")
 HASHES["CMAC-AES-noaesni"] = ("CMAC", {"key": 16, "ciphermod": "AES", "cipher_params": {"use_aesni": False}}, 16, "d")
 
+HASH_PRIMARY = ("MD2", "MD4", "MD5", "RIPEMD160", "SHA1", "SHA224", "SHA256", "SHA384", "SHA512", "SHA3-256", "keccak-512",
+                "BLAKE2b-512", "BLAKE2s-256", "BLAKE2b-1-keyed64", "SHAKE128", "cSHAKE128", "TurboSHAKE128", "KangarooTwelve",
+                "TupleHash128", "KMAC128", "Poly1305-AES", "Poly1305-ChaCha20", "HMAC-SHA256", "HMAC-SHA3_256", "CMAC-AES",
+                "CMAC-DES3")
 NO_COPY = ("BLAKE2", "keccak", "KMAC", "TupleHash", "cSHAKE", "TurboSHAKE", "KangarooTwelve", "Poly1305")
 DATA_KW = {"HMAC": "msg", "CMAC": "msg"}
 
@@ -105,12 +109,13 @@ class Hash(object):
     def gen(shard, tier):
         _, name, part = shard
         modname, kw, block, fin = HASHES[name]
-        primary = tier == "thorough" or not name.startswith(("HMAC-", "CMAC-")) or name in ("HMAC-SHA256", "HMAC-SHA3_256", "CMAC-AES", "CMAC-DES3")
-        lens = lens_for(tier, block if block < 1000 else 64, big=primary)
+        th = tier == "thorough"
+        primary = th or name in HASH_PRIMARY
+        lens = lens_for(tier, block if block < 1000 else 64, big=primary, reduced=not primary)
         out = []
         if part == "data":
-            pres = [0, 1, block - 1]
-            if block == 8192:
+            pres = [0, 1, block - 1] if primary else [0, block - 1]
+            if block == 8192 and primary:
                 pres += [8192, 8193]
             for pre in pres:
                 for L in lens:
@@ -132,22 +137,22 @@ class Hash(object):
                         for pl in "ES":
                             out.append(("hash", name, "C", pre, L, pl))
             if fin == "r":
-                rl = lens_for(tier, block if block < 1000 else 168, big=True)
-                for L in (0, 1, 200):
+                rl = lens_for(tier, block if block < 1000 else 168, big=primary, reduced=not primary)
+                for L in ((0, 1, 200) if th else (1,)):
                     for r1 in rl:
-                        for r2 in (0, 1, 167, 168, 169):
+                        for r2 in ((0, 1, 167, 168, 169) if primary else (0, 169)):
                             if r1 > 8193 and (L or r2 > 1):
                                 continue
                             out.append(("hash", name, "R", L, r1, r2))
         else:
             # constructor parameters that are buffers or lengths
             if "key" in kw:
-                kl = lens_for(tier, block if block < 1000 else 64, big=False)
+                kl = lens_for(tier, block if block < 1000 else 64, big=False, reduced=not primary)
                 for n in kl:
                     for pl in "ES":
                         out.append(("hash", name, "P", "key", n, pl))
             if modname.startswith(("cSHAKE", "KMAC", "TupleHash", "KangarooTwelve")):
-                cl = lens_for(tier, 168, big=(modname == "KangarooTwelve"))
+                cl = lens_for(tier, 168, big=(modname == "KangarooTwelve"), reduced=not primary)
                 for n in cl:
                     for pl in "ES":
                         out.append(("hash", name, "P", "custom", n, pl))
@@ -500,9 +505,12 @@ class Misc(object):
             for n in ems:
                 if n % 4 != r:
                     continue
-                sents = sorted({x for x in (0, 1, 2, n - 12, n - 11, n - 10, n - 9, n - 1, n, n + 1, n + 2, 2 * n + 1) if x >= 0})
-                exps = sorted({x for x in (0, 1, 2, n - 13, n - 12, n - 11, n - 10, n - 9, n - 1, n, n + 1) if x >= 0}) + \
-                    [2 ** 31 - 1, 2 ** 31, 2 ** 32 - 1, 2 ** 32, 2 ** 63, 2 ** 64 - 1]
+                sents = sorted({x for x in (0, 1, n - 11, n - 10, n, n + 1) if x >= 0})
+                exps = sorted({x for x in (0, 1, n - 12, n - 11, n - 10, n) if x >= 0}) + [2 ** 32 - 1, 2 ** 32, 2 ** 64 - 1]
+                if th:
+                    sents = sorted({x for x in (0, 1, 2, n - 12, n - 11, n - 10, n - 9, n - 1, n, n + 1, n + 2, 2 * n + 1) if x >= 0})
+                    exps = sorted({x for x in (0, 1, 2, n - 13, n - 12, n - 11, n - 10, n - 9, n - 1, n, n + 1) if x >= 0}) + \
+                        [2 ** 31 - 1, 2 ** 31, 2 ** 32 - 1, 2 ** 32, 2 ** 63, 2 ** 64 - 1]
                 if th and n <= 40:
                     sents = list(range(0, n + 3))
                     exps = list(range(0, n + 2)) + [2 ** 31 - 1, 2 ** 31, 2 ** 32 - 1, 2 ** 32, 2 ** 63, 2 ** 64 - 1]
@@ -517,8 +525,8 @@ class Misc(object):
                     if ol >= 0 and ol != n:
                         out.append(("misc", "pkcs1_out", n, 0, 0, "z", ol, "E"))
         elif part == "oaep":
-            hs = (0, 1, 16, 20, 32, 48, 64)
-            for n in list(range(0, 41)) + [63, 64, 65, 127, 128, 129, 130, 131, 256]:
+            hs = (0, 1, 16, 20, 32, 48, 64) if th else (0, 1, 20, 32)
+            for n in list(range(0, 41 if not th else 81)) + [63, 64, 65, 127, 128, 129, 130, 131, 256]:
                 for h in hs:
                     for dl in sorted({x for x in (0, 1, n - 2 - h, n - 1 - h, n - h, n, n + 1) if x >= 0}):
                         for kind in ("v0", "v1", "vmax", "no1", "y1", "lh", "ps"):
@@ -552,7 +560,8 @@ class Misc(object):
 
     @staticmethod
     def group(case):
-        return case[1]
+        return {"pkcs1_out": "pkcs1", "eks_use": "eks", "scrypt_keys": "scrypt", "bcrypt_check_hash": "bcrypt_check",
+                "rsa15raw": "rsa15"}.get(case[1], case[1])
 
     @staticmethod
     def run(case):
@@ -1034,9 +1043,13 @@ class Modexp(object):
                 out.append(("modexp", "mul", 8, mp, "seed"))
             return out
         for n in Modexp.sizes(tier):
+            if tier != "thorough" and pat in ("80", "01") and n > 16 and n % 8 not in (0, 1, 7):
+                continue
             for bp in ("zero", "one", "m-1", "seed", "big"):
                 for ep in ("0", "1", "2", "65537", "short", "full", "ff", "long"):
                     if n > 72 and ep in ("full", "ff", "long") and bp != "seed":
+                        continue
+                    if tier != "thorough" and n > 40 and ep in ("ff", "long") and n % 8 not in (0, 1, 7):
                         continue
                     out.append(("modexp", "pow", n, pat, bp, ep))
         for mp in ("even", "zero", "neg", "one"):
@@ -1203,11 +1216,40 @@ def life_names():
 
 
 _LIFE = {}
+_HIST = {}
+
+
+def life_histories(depth):
+    """all histories of length 1..depth over LIFE_OPS in which no step is a no-op: operations on an object that
+    does not exist (any more) and gc directly after gc are left out (abstract state: A alive?, B alive?)"""
+    if depth in _HIST:
+        return _HIST[depth]
+    out = []
+
+    def rec(h, a, b, lastgc):
+        if h:
+            out.append(h)
+        if len(h) == depth:
+            return
+        for i, op in enumerate(LIFE_OPS):
+            if op in ("useA", "finA", "copy", "delA") and not a:
+                continue
+            if op in ("useB", "delB") and not b:
+                continue
+            if op == "gc" and lastgc:
+                continue
+            rec(h + str(i), a and op != "delA", (b or op in ("copy", "newB")) and op != "delB", op == "gc")
+    rec("", True, False, False)
+    out.sort(key=lambda x: (len(x), x))
+    _HIST[depth] = out
+    return out
+
+
 # quick tier: depth 4 for one class per native implementation family, depth 3 for the rest
-LIFE_PRIMARY = ("hash:SHA256", "hash:SHA3-256", "hash:SHAKE128", "hash:BLAKE2b-512", "hash:MD5", "hash:HMAC-SHA256",
-                "hash:CMAC-AES", "hash:Poly1305-ChaCha20", "hash:KMAC128", "blk:AES-CBC", "blk:AES-CTR", "blk:DES3-CFB",
-                "blk:AES-ECB-noaesni", "stream:ChaCha20-12", "aead:AES-GCM", "aead:AES-OCB", "aead:AES-EAX", "aead:AES-SIV",
-                "aead:AES-CCM", "aead:ChaCha20_Poly1305-CHAPOLY", "point:p256", "point:ed25519", "point:curve25519")
+LIFE_PRIMARY = ("hash:SHA256", "hash:SHA3-256", "hash:SHAKE128", "hash:BLAKE2b-512", "hash:HMAC-SHA256", "hash:CMAC-AES",
+                "hash:Poly1305-ChaCha20", "blk:AES-CBC", "blk:AES-CTR", "blk:DES3-CFB", "blk:AES-ECB-noaesni",
+                "stream:ChaCha20-12", "aead:AES-GCM", "aead:AES-OCB", "aead:AES-EAX", "aead:AES-SIV", "aead:AES-CCM",
+                "aead:ChaCha20_Poly1305-CHAPOLY", "point:p256", "point:ed25519", "point:curve25519")
 
 
 @family("life")
@@ -1220,14 +1262,7 @@ class Life(object):
     def gen(shard, tier):
         name = shard[1]
         depth = 4 if (tier == "thorough" or name in LIFE_PRIMARY) else 3
-        out = []
-        for d in range(1, depth + 1):
-            for h in itertools.product(range(len(LIFE_OPS)), repeat=d):
-                # canonical form: a history never starts with an operation on the (not yet existing) clone
-                if LIFE_OPS[h[0]] in ("useB", "delB"):
-                    continue
-                out.append(("life", name, "".join(str(x) for x in h)))
-        return out
+        return [("life", name, h) for h in life_histories(depth)]
 
     @staticmethod
     def group(case):
